@@ -172,7 +172,14 @@ def nextcaller(ctx):
     fn = S.model.methods["visitCallTag"]
     exv = [env_["x"][1].id for _n, env_ in P.find(fn, "'return [%s]' % ','.join($x)") if isinstance(env_["x"][1], ast.Name)]
     ex = [n for n in walk_func(fn) if isinstance(n, ast.Assign) and exv and src(n.targets[0]) == exv[0]]
-    ctx.check(bool(ex) and isinstance(ex[0].value, ast.List) and [const(e) for e in ex[0].value.elts] == ["body"], "export-body-first", db.where(fn), "body is not the first exported callable", "export = ['body']")
+    exval = ex[0].value if ex else None
+    if exval is None:
+        direct = [env_["x"][1] for _n, env_ in P.find(fn, "'return [%s]' % ','.join($x)") if isinstance(env_["x"][1], ast.Attribute)]
+        exval = direct[0] if direct else None
+    if exval is not None and not isinstance(exval, ast.List):
+        from .common import field_initial
+        exval = field_initial(db, fn, exval) or exval  # the list lives in a visitor object: what its constructor stores
+    ctx.check(isinstance(exval, ast.List) and [const(e) for e in exval.elts] == ["body"], "export-body-first", db.where(fn), "body is not the first exported callable", "export = ['body']")
     # the body def sees ccall's `caller`; sibling defs see the frame's caller
     decl = {env_["b"][0] for _n, env_ in P.find(fn, "$b.add_declared('caller')")}
     used = {env_["b"][0] for _n, env_ in P.find(fn, "self.write_variable_declares($b)")}
